@@ -37,6 +37,13 @@ SPECIAL = {
     "alpha.cpp": b'#include "beta.h"\n#include "alpha.h"\n#include "gamma.h"\nint a;\n',
     "beta.cpp": b'#include "gamma.h"\n#include "alpha.h"\n#include "beta.h"\nint b;\n',
     "gamma.c": b'#include "beta.h"\n#include "gamma.h"\n#include "alpha.h"\nint c;\n',
+    # extensions the language table does not know (read as C when alone), with text that reads differently in C++ / C# / Java
+    "holder.tcc": b"template<class T> class Holder : public Base<T> { public: int in, out; int f() { return in * out; } };\n",
+    "NOEXT": b"class K : public B { int get; int set; };\nint g(int in, int out) { return in * out; }\n#define Q 1\n",
+    "prog.cs": b"namespace A { class P { int X { get; set; } void f(out int a, in int b) { a = b; } } }\n",
+    "Main.java": b"public class Main extends B { synchronized void f() throws E { for (int x : xs) { assert x > 0; } } }\n",
+    "widget.cpp": b"namespace W { template<typename T> class V final : public B<T> { public: V() = default; }; }\n",
+    "iface.m": b"@interface Foo : NSObject\n- (void)bar:(int)x;\n@end\n",
 }
 
 
